@@ -9,6 +9,7 @@ type vGuardRec struct {
 	target    int
 	repl      int
 	cancelled bool
+	tracked   bool // still the patch-table entry of its target (no UnpatchAll / re-mock since)
 }
 
 var vGuards [8]vGuardRec
@@ -48,6 +49,8 @@ func vInvariant(snap int, ts [2]*vTarget) {
 	}
 }
 
+func vTinyPlaceholder(i int) int { return i }
+
 func vHistory(K int) {
 	vReset()
 	vNumGuards = 0
@@ -59,18 +62,51 @@ func vHistory(K int) {
 	verifAssume(ts[1].size >= 32)
 	// at least one page apart
 	verifApart(ts[0].addr, ts[1].addr, 4096)
+	verifApart(ts[0].addr, verifFuncCode(vTinyPlaceholder), 4096)
+	verifApart(ts[1].addr, verifFuncCode(vTinyPlaceholder), 4096)
 	// pristine entry bytes are not the already-patched sentinel (else goom refuses: C13/C14)
 	verifAssume(verifImgLoad(ts[0].addr) != 0x90)
 	verifAssume(verifImgLoad(ts[1].addr) != 0x90)
 	snap := verifImgSnap()
 	for step := 0; step < K; step++ {
-		switch verifChoice(vOpNames[step], 4) {
+		switch verifChoice(vOpNames[step], 5) {
+		case 4:
+			// a mock of target ti that goom rejects after it has already taken the target's
+			// previous patch off (origin placeholder too small for the jump): the target is
+			// left un-mocked and pristine, and nothing of a former mock comes back
+			ti := verifChoice(vArgNames[step], 2)
+			tiny := verifFuncCode(vTinyPlaceholder)
+			known := false
+			for j := 0; j < vNumTargets; j++ {
+				if vTargets[j].addr == tiny {
+					known = true
+				}
+			}
+			if !known {
+				vTargets[vNumTargets] = vTarget{addr: tiny, size: 5}
+				vNumTargets++
+			}
+			_, err := PtrTrampoline(ts[ti].addr, vReplFns[0], vTinyPlaceholder)
+			verifAssert(err != nil, "C02.hist.tiny-placeholder-is-rejected")
+			vLiveT[ti] = false
+			vWin[ti] = -1
+			for j := 0; j < vNumGuards; j++ {
+				if vGuards[j].target == ti {
+					vGuards[j].tracked = false
+				}
+			}
 		case 3: // Restore any guard obtained so far: its jump is back in its target's window
 			if vNumGuards == 0 {
 				return
 			}
 			gi := verifChoice(vArgNames[step], vNumGuards)
 			rec := &vGuards[gi]
+			if !rec.tracked {
+				// re-applying a guard that the patch table no longer knows (after UnpatchAll,
+				// or superseded by a later mock of the same target) installs a jump nobody
+				// tracks: not one of the property's operations
+				return
+			}
 			rec.g.Restore()
 			rec.cancelled = false
 			vLiveT[rec.target] = true
@@ -85,7 +121,12 @@ func vHistory(K int) {
 				return
 			}
 			g.Apply()
-			vGuards[vNumGuards] = vGuardRec{g: g, target: ti, repl: r}
+			for j := 0; j < vNumGuards; j++ {
+				if vGuards[j].target == ti {
+					vGuards[j].tracked = false
+				}
+			}
+			vGuards[vNumGuards] = vGuardRec{g: g, target: ti, repl: r, tracked: true}
 			vWin[ti] = vNumGuards
 			vNumGuards++
 			vLiveT[ti] = true
@@ -111,6 +152,9 @@ func vHistory(K int) {
 			vWindowPristine(snap, ts[1], "C02.hist.unpatchall-restores")
 			vLiveT = [2]bool{}
 			vWin = [2]int{-1, -1}
+			for j := 0; j < vNumGuards; j++ {
+				vGuards[j].tracked = false
+			}
 		}
 		vInvariant(snap, ts)
 		// the window of a live target holds exactly the jump of the guard that wrote last
